@@ -329,3 +329,222 @@ Proof.
   - rewrite Hqn. destruct (q_ok _); discriminate.
   - exact Hf2.
 Qed.
+
+Definition root_id (t : rtree) : N := match t with RLeaf id _ _ _ | RNode id _ _ => id end.
+(* a cut of fewer bytes than this leaves the tag incomplete (a master counts as complete once its header is) *)
+Definition cut_limit (x : rtree) : nat := match x with RLeaf _ _ _ _ => length (enc_tree x) | RNode _ _ _ => hdr_len x end.
+(* the error the documentation promises: the start offset of the incomplete tag; the id iff the id bytes are complete; the size
+   iff the header is complete; the payload bytes that are there *)
+Definition cut_error (off : N) (x : rtree) (k : nat) : rerr :=
+  if (k <? length (id_bytes (root_id x)))%nat then REof off None None None
+  else if (k <? hdr_len x)%nat then REof off (Some (root_id x)) None None
+  else match x with
+       | RLeaf id _ pl _ => REof off (Some id) (Some (N.of_nat (length pl))) (Some (firstn (k - hdr_len x) pl))
+       | RNode id _ _ => REof off (Some id) None None
+       end.
+
+Lemma firstn_pfx {A} k (l : list A) : (k < length l)%nat -> exists q, l = firstn k l ++ q /\ q <> [].
+Proof.
+  intros H. exists (skipn k l). split; [symmetry; apply firstn_skipn|]. intros E. apply (f_equal (@length A)) in E.
+  rewrite skipn_length in E. cbn in E. lia.
+Qed.
+
+Lemma header_err_read c st e : p_header c st = (st, Err e) -> p_read_tag c st = (st, Err e).
+Proof. intros H. rewrite p_read_tag_unfold, H. reflexivity. Qed.
+
+Lemma truncated_tag c st T stk ids ext x k : strict c -> c_buffered c = [] -> pre c st T stk ids ext -> conf c ids x -> tlen x <= ext ->
+  (0 < k < cut_limit x)%nat -> b_bytes st = firstn k (enc_tree x) ->
+  forall n, snd (p_run_all (exhausted_count (b_off st) (T ++ stk) + S n) c st) =
+            map end_out (firstn (exhausted_count (b_off st) (T ++ stk)) (T ++ stk)) ++ [OErr (cut_error (b_off st) x k)].
+Proof.
+  intros Hstrict Hnb Hpre Hconf Hext Hk Hb.
+  assert (Hidx : idok (root_id x) /\ get_path (c_sp c) (root_id x) = map PId ids /\ get_type (c_sp c) (root_id x) <> None).
+  { destruct x as [id v pl sl|id sz cs].
+    - destruct Hconf as [Hid [_ [_ [_ [[ty [Hty _]] [Hpath _]]]]]]. cbn [root_id]. rewrite Hty. repeat split; try assumption. discriminate.
+    - apply conf_node in Hconf. destruct Hconf as [Hid [_ [Hty [Hpath _]]]]. cbn [root_id]. rewrite Hty. repeat split; try assumption. discriminate. }
+  destruct Hidx as [Hid [Hpath Htyn]].
+  assert (Hpos : 0 < ext) by (pose proof (conf_wf c x ids Hconf) as [_ H2]; lia).
+  pose proof (pre_step c st T stk ids _ (root_id x) Hpre Hpos Hpath Htyn Hnb) as Hstep.
+  pose proof (prep c st T stk ids (root_id x) _ Hstep) as Hprep. cbn zeta in Hprep.
+  destruct Hprep as [P1 [P2 [P3 [P4 [P5 [P6 [P7 [Phier Proom]]]]]]]].
+  pose proof Hpre as [Hs Hq Hbad Hf _ _ _ _ _ _]. rewrite Hs in *.
+  set (k1 := exhausted_count (b_off st) (T ++ stk)) in *.
+  set (st_a := ppop_frames st k1) in *.
+  assert (Hne : b_bytes st <> []).
+  { rewrite Hb. intros E. apply (f_equal (@length N)) in E. rewrite firstn_length in E. cbn [length] in E.
+    pose proof (conf_wf c x ids Hconf) as [_ H2]. unfold tlen in H2. lia. }
+  set (idb := id_bytes (root_id x)) in *.
+  destruct (idok_len _ Hid) as [Hidl Hidw]. fold idb in Hidl, Hidw.
+  (* the encoding as id ++ field ++ body *)
+  assert (Henc : exists sl osz body, enc_tree x = idb ++ fld sl osz ++ body /\ fsize_ok sl osz /\ hdr_len x = (length idb + fsl sl osz)%nat).
+  { destruct x as [id v pl sl|id sz cs].
+    - destruct Hconf as [_ [Hsl [Hlt _]]]. exists sl, (Some (N.of_nat (length pl))), pl. split; [reflexivity|]. split; [split; assumption|reflexivity].
+    - apply conf_node in Hconf. destruct Hconf as [_ [Hsz _]]. rewrite enc_tree_node. destruct sz as [sl|].
+      + exists sl, (Some (flen cs)), (enc_forest cs). split; [reflexivity|]. split; [apply Hsz; reflexivity|reflexivity].
+      + exists 8%nat, None, (enc_forest cs). split; [reflexivity|]. split; [exact I|reflexivity]. }
+  destruct Henc as [sl0 [osz [body [Henc [Hfs Hhl]]]]].
+  unfold cut_error. fold idb.
+  destruct (Nat.ltb_spec k (length idb)) as [Hk1|Hk1].
+  - (* inside the id *)
+    assert (Hp : b_bytes st_a = firstn k idb).
+    { rewrite P1, Hb, Henc, firstn_app. replace (k - length idb)%nat with O by lia. cbn [firstn]. apply app_nil_r. }
+    destruct (firstn_pfx k idb Hk1) as [q [Hqq Hqn]].
+    assert (Hpn : firstn k idb <> []).
+    { intros E. apply (f_equal (@length N)) in E. rewrite firstn_length in E. cbn in E. lia. }
+    pose proof (id_prefix_eof st_a (root_id x) (firstn k idb) Hid (ex_intro _ q (conj Hqq Hqn)) Hpn Hp) as Hti.
+    assert (Hh : p_header c st_a = (st_a, Err (REof (b_off st_a) None None None))) by (rewrite p_header_unfold, Hti; reflexivity).
+    rewrite P2 in Hh. apply (err_run c st (T ++ stk) _ st_a Hs Hq Hbad Hf Hne (header_err_read c st_a _ Hh)); [reflexivity|exact P3|reflexivity].
+  - destruct (Nat.ltb_spec k (hdr_len x)) as [Hk2|Hk2].
+    + (* inside the size field *)
+      rewrite Hhl in Hk2.
+      assert (Hp : b_bytes st_a = idb ++ firstn (k - length idb) (fld sl0 osz)).
+      { rewrite P1, Hb, Henc, firstn_app, firstn_all2 by lia. f_equal. rewrite firstn_app.
+        replace (k - length idb - length (fld sl0 osz))%nat with O by (rewrite fld_length; lia). cbn [firstn]. apply app_nil_r. }
+      assert (Hpf : pfx (firstn (k - length idb) (fld sl0 osz)) (fld sl0 osz)) by (apply firstn_pfx; rewrite fld_length; lia).
+      pose proof (size_prefix_eof c st_a (root_id x) _ sl0 osz Hid Hfs Hpf Hp) as Hh. rewrite P2 in Hh.
+      apply (err_run c st (T ++ stk) _ st_a Hs Hq Hbad Hf Hne (header_err_read c st_a _ Hh)); [reflexivity|exact P3|reflexivity].
+    + (* inside the payload of an element *)
+      destruct x as [id v pl sl|id sz cs]; [|cbn [cut_limit] in Hk; lia].
+      destruct Hconf as [_ [Hsl [Hlt [Hwfp [[ty [Hty [Hnm Hdec]]] [_ Hmax]]]]]]. cbn [root_id] in *.
+      cbn [cut_limit enc_tree hdr_len] in Hk, Hk2. rewrite !app_length, venc_length in Hk. change (id_bytes id) with idb in Hk, Hk2 |- *.
+      set (hl := (length idb + sl)%nat) in *.
+      set (p := firstn (k - hl) pl).
+      assert (Hp : b_bytes st_a = idb ++ venc sl (N.of_nat (length pl)) ++ p).
+      { rewrite P1, Hb. cbn [enc_tree]. fold idb. rewrite firstn_app, firstn_all2 by lia. f_equal.
+        rewrite firstn_app, firstn_all2 by (rewrite venc_length; lia). f_equal. rewrite venc_length. unfold p, hl. f_equal. lia. }
+      assert (Hwp : wf_bytes p) by (apply wf_firstn, Hwfp).
+      assert (Hsz : N.of_nat (length pl) < 2 ^ (7 * N.of_nat sl)) by lia.
+      pose proof (ebml_size_known _ _ Hlt) as Hes.
+      assert (Hroom : p_invalid_tag_size st_a (N.of_nat hl + match ebml_size (N.of_nat (length pl)) sl with SKnown n => n | SUnknown => 0 end) = false).
+      { rewrite Hes. apply Proom. rewrite tlen_leaf in Hext. cbn [hdr_len] in Hext. fold idb hl in Hext. exact Hext. }
+      assert (Hmax' : size_ok c (ebml_size (N.of_nat (length pl)) sl)) by (rewrite Hes; exact Hmax).
+      destruct (p_header_conf c st_a id ty sl (N.of_nat (length pl)) p Hstrict Hid Hsl Hsz Hwp Hp Hty (decodes_numeric ty pl v Hdec) P3 Phier Hroom Hmax')
+        as [st1 [Hh [S1 [S2 [S3 [S4 [S5 [S6 S7]]]]]]]].
+      assert (Hhl' : length (idb ++ venc sl (N.of_nat (length pl))) = hl) by (rewrite app_length, venc_length; reflexivity).
+      assert (Hp' : b_bytes st_a = (idb ++ venc sl (N.of_nat (length pl))) ++ p) by (rewrite Hp, app_assoc; reflexivity).
+      destruct (pconsume_exact st_a st1 _ _ (conj S1 (conj S2 (conj S3 (conj S4 (conj S5 (conj S6 S7)))))) Hp') as [Hadv Hbytes].
+      rewrite Hhl' in Hadv, Hbytes. set (stc := pconsume st1 (N.of_nat hl)) in *.
+      assert (Hplen : (length p < length pl)%nat) by (unfold p; rewrite firstn_length; lia).
+      assert (Hread : p_read_tag c st_a = (stc, Err (REof (b_off st_a) (Some id) (Some (N.of_nat (length pl))) (Some p)))).
+      { rewrite p_read_tag_unfold, Hh. unfold p_tag_tail. rewrite Hes. change (length (id_bytes id) + sl)%nat with hl. fold stc.
+        assert (Hlt2 : (blen stc <? N.of_nat (length pl)) = true) by (unfold blen; rewrite Hbytes; apply N.ltb_lt; lia).
+        rewrite Hbytes.
+        destruct ty; try (contradiction Hnm; reflexivity); rewrite Hlt2; reflexivity. }
+      rewrite P2 in Hread. destruct Hadv as [_ [_ [_ [A4 [A5 [A6 _]]]]]].
+      replace (k - hdr_len (RLeaf id v pl sl))%nat with (k - hl)%nat by reflexivity. fold p.
+      apply (err_run c st (T ++ stk) _ stc Hs Hq Hbad Hf Hne Hread); [exact A4|rewrite A5; exact P3|rewrite A6; exact P5].
+Qed.
+
+(* ------------------------------------------------------------------ how many outputs *)
+Lemma outs_pend_len c ids : forall l off T, Forall (conf c ids) l ->
+  (length (outs_forest off l T) + length (pend_after off l T) <= length T + length (enc_forest l))%nat.
+Proof.
+  intros l off T Hc. destruct l as [|x l']; [cbn [outs_forest pend_after enc_forest length]; lia|].
+  unfold outs_forest, pend_after. rewrite app_length, map_length.
+  pose proof (items_le_bytes_forest c ids (x :: l') off Hc) as Hle.
+  rewrite <- (open_close_forest (x :: l') off), app_length, map_length in Hle. lia.
+Qed.
+
+Lemma lv_len c : forall L ids off T stk inner, conf_levels c ids L inner ->
+  (length (lv_outs off T L) + length (lv_T off T L) + length (lv_stk off stk L) <= length T + length stk + 2 * length (enc_levels L))%nat.
+Proof.
+  induction L as [|lv L IH]; intros ids off T stk inner Hc; [cbn; lia|].
+  destruct Hc as [Hf [Hid [_ [_ [Hsz [_ [_ HL]]]]]]]. cbn [lv_outs lv_T lv_stk enc_levels].
+  rewrite !app_length, map_length. cbn [length]. rewrite ?app_length.
+  pose proof (outs_pend_len c ids (lv_f lv) off T Hf) as H1.
+  specialize (IH (ids ++ [lv_id lv]) (off + flen (lv_f lv) + lv_hl lv) []
+                 (mframe (off + flen (lv_f lv)) (lv_id lv) (lv_sl lv) (lv_size lv) :: stk) inner HL). cbn [length] in IH.
+  destruct (idok_len _ Hid) as [Hl _]. rewrite fld_length.
+  assert (Hs : (1 <= fsl (lv_sl lv) (lv_size lv))%nat) by (destruct (lv_size lv); cbn; [destruct Hsz; lia|lia]).
+  lia.
+Qed.
+
+(* ------------------------------------------------------------------ C12: truncated documents *)
+Inductive cut_tail : Type := CutBoundary | CutTag (x : rtree) (k : nat).
+Definition tail_bytes (tl : cut_tail) : list N := match tl with CutBoundary => [] | CutTag x k => firstn k (enc_tree x) end.
+Definition tail_ext (tl : cut_tail) : N := match tl with CutBoundary => 0 | CutTag x _ => tlen x end.
+
+(* a document cut somewhere: the masters open at the cut (each with the complete trees before it and its declared size), the
+   complete trees at the innermost level, and either nothing more (the cut is on a tag boundary) or the first k bytes of a tag *)
+Record tdoc : Type := { td_levels : list level; td_f : list rtree; td_tail : cut_tail }.
+Definition enc_tdoc (td : tdoc) : list N := enc_levels (td_levels td) ++ enc_forest (td_f td) ++ tail_bytes (td_tail td).
+
+Definition conf_tdoc (c : cfg) (td : tdoc) : Prop :=
+  conf_levels c [] (td_levels td) (flen (td_f td) + tail_ext (td_tail td)) /\
+  Forall (conf c (lv_ids [] (td_levels td))) (td_f td) /\
+  match td_tail td with
+  | CutBoundary => True
+  | CutTag x k => conf c (lv_ids [] (td_levels td)) x /\ (0 < k < cut_limit x)%nat
+  end.
+
+Definition out_tdoc (td : tdoc) : list rout :=
+  let L := td_levels td in
+  let off1 := levels_len L in
+  let T1 := lv_T 0 [] L in
+  let stk1 := lv_stk 0 [] L in
+  let P := pend_after off1 (td_f td) T1 ++ stk1 in
+  let off2 := off1 + flen (td_f td) in
+  lv_outs 0 [] L ++ outs_forest off1 (td_f td) T1 ++
+  match td_tail td with
+  | CutBoundary => map end_out P ++ [ONone]
+  | CutTag x k => map end_out (firstn (exhausted_count off2 P) P) ++ [OErr (cut_error off2 x k)]
+  end.
+
+Lemma wf_firstn_enc c ids x k : conf c ids x -> wf_bytes (firstn k (enc_tree x)).
+Proof. intros H. apply wf_firstn. apply (conf_wf c x ids H). Qed.
+
+Theorem truncated_run c td : strict c -> c_buffered c = [] -> c_emit_eof c = true -> conf_tdoc c td ->
+  p_run c (enc_tdoc td) [RAll] = out_tdoc td.
+Proof.
+  intros Hstrict Hnb He [HL [Hf Htl]]. unfold p_run. rewrite run_ops_all.
+  destruct td as [L f tl]. cbn [td_levels td_f td_tail] in *. unfold enc_tdoc, out_tdoc. cbn [td_levels td_f td_tail].
+  set (input := enc_levels L ++ enc_forest f ++ tail_bytes tl). set (st0 := p_init input).
+  set (inner := flen f + tail_ext tl) in *.
+  assert (Hwt : wf_bytes (tail_bytes tl)).
+  { destruct tl as [|x k]; [constructor|]. destruct Htl as [Hx _]. apply (wf_firstn_enc c _ x k Hx). }
+  assert (Hwf1 : wf_bytes (enc_forest f ++ tail_bytes tl)) by (apply wf_app; [apply (conf_wf_forest c _ f Hf)|exact Hwt]).
+  assert (Hpre0 : pre c st0 [] [] [] (levels_ext L inner)).
+  { constructor; try reflexivity.
+    - unfold st0, p_init, default_fuel. cbn [b_fuel]. lia.
+    - right. repeat split.
+    - constructor.
+    - intros d Hn. contradiction Hn. reflexivity.
+    - intros i a Hn. destruct i; discriminate.
+    - constructor. }
+  destruct (descend c Hstrict Hnb L [] st0 [] [] _ inner HL Hpre0 eq_refl Hwf1) as [st1 [Hpre1 [B1 [B2 [B3 [_ [_ Hrun1]]]]]]].
+  change (b_off st0) with 0 in *. rewrite N.add_0_l in B2.
+  set (T1 := lv_T 0 [] L) in *. set (stk1 := lv_stk 0 [] L) in *. set (ids1 := lv_ids [] L) in *.
+  assert (HP : Forall (Ptree c) f) by (apply Forall_forall; intros t _; apply parse_tree; assumption).
+  assert (Hpre1' : pre c st1 T1 stk1 ids1 (flen f)) by (eapply pre_weaken; [|exact Hpre1]; unfold inner; lia).
+  destruct (parse_forest c f HP ids1 Hf st1 T1 stk1 _ Hpre1' B1 Hwt) as [st2 [Hat2 [Hd2 [Hd2' Hrun2]]]].
+  rewrite B2 in Hat2, Hrun2.
+  assert (Hat2' : at_ st2 (b_bytes st2) (b_off st1 + flen f) (pend_after (b_off st1) f T1 ++ stk1) (b_fuel st1)).
+  { rewrite B2. destruct Hat2 as [A1 [A2 [A3 [A4 [A5 A6]]]]]. repeat split; assumption. }
+  assert (Hle : flen f <= inner) by (unfold inner; lia).
+  pose proof (pre_after_forest c st1 st2 T1 stk1 ids1 inner f Hpre1 Hf Hle Hat2' Hd2 Hd2') as Hpre2. rewrite B2 in Hpre2.
+  destruct Hat2 as [A1 [A2 [A3 [A4 [A5 A6]]]]].
+  set (P := pend_after (levels_len L) f T1 ++ stk1) in *.
+  (* counting *)
+  pose proof (lv_len c L [] 0 [] [] inner HL) as Hc1. cbn [length] in Hc1. fold T1 stk1 in Hc1.
+  pose proof (outs_pend_len c ids1 f (levels_len L) T1 Hf) as Hc2.
+  assert (HPl : length P = (length (pend_after (levels_len L) f T1) + length stk1)%nat) by (unfold P; apply app_length).
+  assert (Hin : length input = (length (enc_levels L) + (length (enc_forest f) + length (tail_bytes tl)))%nat)
+    by (unfold input; rewrite !app_length; reflexivity).
+  assert (Hf2 : (1 <= b_fuel st2)%nat) by (rewrite A6, B3; unfold st0, p_init, default_fuel; cbn [b_fuel]; lia).
+  set (a := length (lv_outs 0 [] L)) in *. set (b := length (outs_forest (levels_len L) f T1)) in *.
+  destruct tl as [|x k].
+  - (* the cut is on a tag boundary: every open master ends, then None *)
+    cbn [tail_bytes] in *. 
+    replace (4 * length input + 64)%nat with (a + (b + (length P + S (4 * length input + 63 - a - b - length P))))%nat by lia.
+    rewrite Hrun1, Hrun2.
+    pose proof (eof_ends c st2 (4 * length input + 63 - a - b - length P) A1 A4 A5 Hf2 He) as Hend. rewrite A3 in Hend. fold P in Hend.
+    rewrite Hend. reflexivity.
+  - (* the cut is inside a tag *)
+    destruct Htl as [Hx Hk]. cbn [tail_bytes tail_ext] in *.
+    assert (Hext : tlen x <= inner - flen f) by (unfold inner; lia).
+    pose proof (truncated_tag c st2 _ stk1 ids1 _ x k Hstrict Hnb Hpre2 Hx Hext Hk A1) as Htr. rewrite A2 in Htr. fold P in Htr.
+    set (k1 := exhausted_count (levels_len L + flen f) P) in *.
+    assert (Hk1 : (k1 <= length P)%nat) by apply exh_le.
+    replace (4 * length input + 64)%nat with (a + (b + (k1 + S (4 * length input + 63 - a - b - k1))))%nat by lia.
+    rewrite Hrun1, Hrun2, Htr. reflexivity.
+Qed.
